@@ -64,6 +64,10 @@ type opDispatch struct {
 	NilFunc map[string]bool
 	NilNil  map[string]bool
 	Ops     []string
+	// op -> renderings of accepted builds that are not a freshly built operator query
+	Other map[string][]string
+	// op -> all query types built on some path
+	Types map[string]map[string]bool
 }
 
 // operatorSwitch: the operator table of the builder, read off by following the
@@ -77,11 +81,15 @@ func (w *World) operatorSwitch() *opDispatch {
 		return nil
 	}
 	od := &opDispatch{Builder: br.OpB, Func: map[string]types.Object{}, Fn: map[string]*ssa.Function{}, Type: map[string]string{}, Flags: map[string]map[string]bool{},
-		Left: map[string]string{}, Right: map[string]string{}, NilFunc: map[string]bool{}, NilNil: map[string]bool{}, Ops: br.Ops}
+		Left: map[string]string{}, Right: map[string]string{}, NilFunc: map[string]bool{}, NilNil: map[string]bool{}, Ops: br.Ops,
+		Other: map[string][]string{}, Types: map[string]map[string]bool{}}
 	for _, op := range br.Ops {
 		for _, o := range ob[op] {
 			if o.NilNil {
 				od.NilNil[op] = true
+			}
+			if o.Accepted && o.Result.Kind != avPtr {
+				od.Other[op] = append(od.Other[op], w.describeResult(o))
 			}
 			if !o.Accepted || o.Result.Kind != avPtr {
 				continue
@@ -94,6 +102,10 @@ func (w *World) operatorSwitch() *opDispatch {
 			}
 			tn := nm.Obj().Name()
 			od.Type[op] = tn
+			if od.Types[op] == nil {
+				od.Types[op] = map[string]bool{}
+			}
+			od.Types[op][tn] = true
 			for i := 0; i < st.NumFields(); i++ {
 				f := st.Field(i)
 				v, have := obj.Fields[i]
@@ -179,6 +191,14 @@ func ruleAOps(w *World, r *Report) {
 		}
 		if od.Type[op] == "" {
 			continue
+		}
+		switch {
+		case len(od.Other[op]) > 0:
+			r.bad("A-OPS", "always:"+op, pos, fmt.Sprintf("for some operands operator %q is not built as an operator query at all: the builder returns %v in its place — the operator's conversion of its operands (to number / to boolean) and its result type are lost", op, dedup(od.Other[op])))
+		case len(od.Types[op]) > 1:
+			r.bad("A-OPS", "always:"+op, pos, fmt.Sprintf("operator %q is built as different query types on different paths: %v", op, sortedKeysOf(od.Types[op])))
+		default:
+			r.ok("A-OPS", "always:"+op, pos, "every accepted build is a fresh "+od.Type[op]+" over both operands")
 		}
 		if _, hasFunc := od.Fn[op]; hasFunc || od.NilFunc[op] {
 			if od.NilFunc[op] {
